@@ -55,8 +55,16 @@ def mk_type(I, T, tb):
     raise ValueError(T)
 
 
-def b_new(I, T, ty, name):
+def b_new(I, T, ty, name, via='ctor'):
+    """a builder through GenericPurlBuilder::new (default) or GenericPurl::builder"""
+    if via == 'builder':
+        return I.call('GenericPurl::<%s>::builder::<&str>' % tytext(T), [ty, RStr(name)])
     return I.call('builder::GenericPurlBuilder::<%s>::new::<&str>' % tytext(T), [ty, RStr(name)])
+
+
+def p_new(I, T, ty, name):
+    """GenericPurl::new: the one-call form of builder(..).build()"""
+    return I.call('GenericPurl::<%s>::new::<&str>' % tytext(T), [ty, RStr(name)])
 
 
 def b_call(I, T, b, method, *args):
@@ -89,13 +97,20 @@ def b_build(I, T, b):
     return I.call('builder::GenericPurlBuilder::<%s>::build' % tytext(T), [b])
 
 
-def gen_build(L, T, type_bytes, name, steps):
+def gen_build(L, T, type_bytes, name, steps, via='ctor'):
     """run a builder script; steps = [(method, byte lists...)].  Returns (p | None, tag).  Registers the native case."""
     I = L.I
-    req = {'op': 'build', 'T': KINDS[T][1], 'type': SymStr(type_bytes), 'name': SymStr(name),
+    req = {'op': 'build', 'T': KINDS[T][1], 'type': SymStr(type_bytes), 'name': SymStr(name), 'via': via,
            'steps': [[m] + [SymStr(a) for a in args] for m, *args in steps]}
     L.expect_native(req, {})
-    b = b_new(I, T, mk_type(I, T, type_bytes), name)
+    if via == 'new':
+        r = p_new(I, T, mk_type(I, T, type_bytes), name)
+        if r.variant == 'Err':
+            nm = err_name(r.fields[0])
+            L.expect_native(req, {'err': nm})
+            return None, 'rejected:' + nm
+        return r.fields[0], 'built'
+    b = b_new(I, T, mk_type(I, T, type_bytes), name, via)
     for m, *args in steps:
         b = b_call(I, T, b, m, *args)
         if m == 'with_qualifier':
